@@ -8,13 +8,21 @@ produce are exactly — same bits, same order, bit `i` to bit `i` — the bits t
 denotes.  This covers `_list_slice/_resolve_slice/_resolve_concat`, `export_slice`'s inclusive top and
 `export_concat`'s part order.
 
+Fragment **F2** (PortRefs.lean: port references and no-connects over whole signals): `portrefs_preserve_connectivity`
+— when `ResolvePortRefs` is done, two ports are on one signal iff the connections the designer wrote (port to signal,
+port to port reference — chains, fans, cycles, with or without a declared signal in the group) join them; a port is on a
+declared signal iff it is wired to it; a no-connected port is on a signal nothing else is on; the signals invented for
+groups without a declared signal are distinct from every declared one.  `follow`'s depth-first group discovery is
+proved to compute connected components (`Lemmas/Dfs.lean`).
+
 What is **not** proved but decided by the correspondence with the declarative `Sem.src` as oracle
 (Design.lean; evaluated by the driver on every generated design and compared with `Sem.pkg` of the
-real package and with the netlist text): port-reference groups, no-connects, arrays, bundles,
-anonymous bundles, pairs and the composition across hierarchy (F2, F3 of DESIGN.md §6).
+real package and with the netlist text): references inside slices / concatenations, arrays, bundles,
+anonymous bundles, pairs and the composition across hierarchy (rest of F2, F3 of DESIGN.md §6).
 -/
 import Hdl21Model.Lemmas.Resolve
 import Hdl21Model.Lemmas.Export
+import Hdl21Model.Lemmas.PortRefs
 namespace Hdl21.Props.C01
 open Hdl21 Hdl21.Pkg
 
@@ -66,5 +74,91 @@ example :
                  | .ok t => some (readTarget [("a", 2), ("b", 3)] t)
                  | .error _ => none)
      | .error _ => none) = some [("b", 2), ("b", 0), ("a", 0)] := by decide +kernel
+
+/-! ## F2: port references and no-connects -/
+section F2
+open Hdl21.PortRefs Hdl21.Dfs
+
+/-- **F2.** After `ResolvePortRefs` (every port of the module resolved to the signal `r p`):
+    two ports share a signal iff the designer's connections join them; a port is on a declared signal iff it is wired to
+    it; a port connected to a no-connect ends on a signal that carries nothing else. -/
+theorem portrefs_preserve_connectivity (m : Mod) (wf : WF m) (r : Port → Nat)
+    (hres : ∀ p ∈ m.ports, resolvePort m p = some (r p)) :
+    (∀ p₁ ∈ m.ports, ∀ p₂ ∈ m.ports, (r p₁ = r p₂ ↔ Wired m (.port p₁) (.port p₂))) ∧
+    (∀ p ∈ m.ports, ∀ s, s < m.nsig → (r p = s ↔ Wired m (.port p) (.sig s))) ∧
+    (∀ p ∈ m.ports, ∀ id, look m p = some (.nc id) → ∀ p₂ ∈ m.ports, r p₂ = r p → p₂ = p) := by
+  have hsome : ∀ p ∈ m.ports, (resolvePort m p).isSome := fun p hp => by rw [hres p hp]; rfl
+  have declared_lt : ∀ {x : Port} {v : Nat}, look m x = some (.sig v) → v < m.nsig :=
+    fun hl => wf.sigIn _ (look_mem hl) _ rfl
+  refine ⟨?_, ?_, ?_⟩
+  · intro p₁ h₁ p₂ h₂
+    constructor
+    · intro heq
+      have b₁ := resolve_basis (hres p₁ h₁)
+      have b₂ := resolve_basis (hres p₂ h₂)
+      rw [← heq] at b₂
+      cases b₁ with
+      | declared x₁ hr₁ hl₁ =>
+        cases b₂ with
+        | declared x₂ hr₂ hl₂ =>
+          exact .trans (reach_wired wf hr₁) (.trans (.edge (.toSig hl₁)) (.trans (.symm (.edge (.toSig hl₂))) (.symm (reach_wired wf hr₂))))
+        | invented idx z hv _ _ => have := declared_lt hl₁; omega
+      | invented idx₁ z₁ hv₁ hz₁ hr₁ =>
+        cases b₂ with
+        | declared x₂ _ hl₂ => have := declared_lt hl₂; omega
+        | invented idx₂ z₂ hv₂ hz₂ hr₂ =>
+          have : idx₁ = idx₂ := by omega
+          subst this
+          rw [hz₁] at hz₂; injection hz₂ with hz₂; subst hz₂
+          exact .trans (reach_wired wf hr₁) (.symm (reach_wired wf hr₂))
+    · intro hw
+      have := wired_label wf hsome hw
+      simp only [label, hres p₁ h₁, hres p₂ h₂] at this
+      injection this
+  · intro p hp s hs
+    constructor
+    · intro heq
+      have b := resolve_basis (hres p hp)
+      rw [heq] at b
+      cases b with
+      | declared x hr hl => exact .trans (reach_wired wf hr) (.edge (.toSig hl))
+      | invented idx z hv _ _ => omega
+    · intro hw
+      have := wired_label wf hsome hw
+      simp only [label, hres p hp] at this
+      injection this
+  · intro p hp id hl p₂ hp₂ heq
+    have halone := resolve_nc_alone hl (hres p hp)
+    have b := resolve_basis (hres p hp)
+    have b₂ := resolve_basis (hres p₂ hp₂)
+    rw [heq] at b₂
+    cases b with
+    | declared x hr hlx =>
+      -- the only port of the group is `p`, which is on a no-connect, not on a signal
+      have := halone x hr; subst this
+      rw [hl] at hlx; cases hlx
+    | invented idx z hv hz hr =>
+      have hzp := halone z hr; subst hzp
+      cases b₂ with
+      | declared x₂ _ hl₂ => have := declared_lt hl₂; omega
+      | invented idx₂ z₂ hv₂ hz₂ hr₂ =>
+        have : idx = idx₂ := by omega
+        subst this
+        rw [hz] at hz₂; injection hz₂ with hz₂; subst hz₂
+        exact halone p₂ (reach_symm wf hr₂)
+
+/-- The signals invented for groups without a declared signal are none of the designer's. -/
+theorem invented_signals_are_fresh (m : Mod) (wf : WF m) (p : Port) (v : Nat) (h : resolvePort m p = some v) :
+    v < m.nsig → ∃ x, Reach (nbrs m) p x ∧ look m x = some (.sig v) := by
+  intro hv
+  cases resolve_basis h with
+  | declared x hr hl => exact ⟨x, hr, hl⟩
+  | invented idx z hv' _ _ => omega
+
+/-! Non-vacuity: `i1.a = i0.x`, `i2.b = i0.x`, `i0.x` left to the references; `i3.c = s0`; `i4.d = NoConn()`. -/
+def exMod : Mod := ⟨[(0, 0), (1, 0), (2, 0), (3, 0), (4, 0)],
+  [((1, 0), .pref (0, 0)), ((2, 0), .pref (0, 0)), ((3, 0), .sig 0), ((4, 0), .nc 0)], 1⟩
+example : exMod.ports.map (resolvePort exMod) = [some 1, some 1, some 1, some 0, some 5] := by decide +kernel
+end F2
 
 end Hdl21.Props.C01
